@@ -60,9 +60,22 @@ type TermFactory struct {
 	n     int
 	emit  func(string) // sends a line to the solver
 	nvars int
+	cons  map[string]*Term // hash-consing: expression text -> term (per path)
 }
 
 func (f *TermFactory) def(sort Sort, expr string) *Term {
+	if f.cons == nil {
+		f.cons = map[string]*Term{}
+	}
+	if t, ok := f.cons[expr]; ok {
+		return t
+	}
+	t := f.def0(sort, expr)
+	f.cons[expr] = t
+	return t
+}
+
+func (f *TermFactory) def0(sort Sort, expr string) *Term {
 	if len(expr) < 24 {
 		return &Term{Sort: sort, S: expr}
 	}
